@@ -1,4 +1,5 @@
 import Driver.CacheDriver
+import Driver.StoreDriver
 open Driver
 
 def main (args : List String) : IO UInt32 := do
@@ -6,4 +7,5 @@ def main (args : List String) : IO UInt32 := do
   let stdout ← IO.getStdout
   match args with
   | ["cache"] => loop CacheDriver.stepLine stdin stdout (Memento.Cache.init 0); return 0
+  | ["store"] => loop StoreDriver.stepLine stdin stdout StoreDriver.St.none; return 0
   | _ => IO.eprintln "usage: mmodel <model>"; return 2
